@@ -256,9 +256,13 @@ template<typename TT> struct TLANotBFam {
     Tmp a(c, c.lg_k1, scratch), b(c, c.lg_k2, scratch);
     fill_update<TT>(a.u(), c, r); fill_update<TT>(b.u(), c, r);
     const uint64_t how = r.below(3);
-    if (how == 0) { auto res = o.compute(a.u(), b.u(), r.coin()); (void)res.get_estimate(); xcount(std::string(name()) + ".merge_ref"); }
-    else if (how == 1) { auto res = o.compute(std::move(a.u()), b.u(), r.coin()); (void)res.get_estimate(); xcount(std::string(name()) + ".merge_move"); if (r.coin()) reuse_consumed_update<TT>(a.u(), c, r, scratch); }
-    else { auto ca = a.u().compact(r.coin()); auto cb = b.u().compact(r.coin()); auto res = o.compute(std::move(ca), cb, r.coin()); (void)res.get_estimate(); xcount(std::string(name()) + ".merge_move"); if (r.coin()) reuse_consumed_compact<TT>(ca, c, r, scratch); }
+    // operands live in `scratch`; the result must come from o's own instance.  Only the compute() call is bracketed.
+    typedef typename TT::CompactSk CS;
+    auto run = [&](bool by_move, auto&& call) { alignas(CS) unsigned char m[sizeof(CS)]; { OperandWatch w(scratch, by_move, "a-not-b-compute"); new (m) CS(call()); } CS& res = *std::launder(reinterpret_cast<CS*>(m)); (void)res.get_estimate(); res.~CS(); };
+    const bool ord = r.coin();
+    if (how == 0) { run(false, [&] { return o.compute(a.u(), b.u(), ord); }); xcount(std::string(name()) + ".merge_ref"); }
+    else if (how == 1) { run(true, [&] { return o.compute(std::move(a.u()), b.u(), ord); }); xcount(std::string(name()) + ".merge_move"); if (r.coin()) reuse_consumed_update<TT>(a.u(), c, r, scratch); }
+    else { auto ca = a.u().compact(r.coin()); auto cb = b.u().compact(r.coin()); run(true, [&] { return o.compute(std::move(ca), cb, ord); }); xcount(std::string(name()) + ".merge_move"); if (r.coin()) reuse_consumed_compact<TT>(ca, c, r, scratch); }
   }
   static std::string readout(const Obj& o, const Cfg& c) {
     Arena local(9);
